@@ -162,6 +162,9 @@ func (ex *Exec) callBuiltin(fr *Frame, name string, args []Value, in *ssa.Call) 
 	case "builtin:len":
 		switch a := args[0].(type) {
 		case SliceV:
+			if a.SymLen != nil {
+				return ret(a.SymLen)
+			}
 			return ret(mkInt(a.Len))
 		case StrV:
 			return ret(mkInt(a.Len()))
